@@ -238,6 +238,8 @@ bool FIXReader::read(f8String& to)	// read a complete FIX message
 			{
 				if (*tag != '9')
 					throw IllegalMessage(to, FILE_LINE);
+				if (!*val || val[::strspn(val, "0123456789")]) // its first byte arrived unchecked in the fixed size preamble
+					throw IllegalMessage(to, FILE_LINE);
 
 				const unsigned mlen(fast_atoi<unsigned>(val));
 				if (mlen == 0 || mlen > _max_msg_len - _bg_sz - _chksum_sz) // invalid msglen
